@@ -149,13 +149,22 @@ UCL_TYPES = {None: 100, "CRP": 101, "PHOTON": 102, "CRPHOT": 120, "FREEZE": 200,
              "THERM": 201, "DIFF": 310, "CHEMDES": 204}
 
 
-def gen_file(rng, fmt, n):
+# column layouts of a KROME file: any order, any letter case, with or without an index column
+KROME_LAYOUTS = [["idx", "R", "R", "R", "P", "P", "P", "P", "Tmin", "Tmax", "rate"],
+                 ["idx", "r", "r", "p", "p", "p", "tmin", "tmax", "rate"],
+                 ["Tmin", "Tmax", "idx", "R", "R", "P", "P", "P", "rate"],
+                 ["r", "r", "r", "p", "p", "tmin", "tmax", "rate"],
+                 ["tmin", "tmax", "r", "r", "p", "p", "p", "rate", "idx"],
+                 ["rate", "R", "R", "P", "P", "P", "P"],
+                 ["p", "p", "p", "r", "r", "idx", "rate"]]
+
+
+def gen_file(rng, fmt, n, layout=None):
     """returns (lines incl. noise, expected list of dicts in file order)"""
     lines, exp = [], []
     fmtkeys = None
     if fmt == "krome":
-        fmtkeys = rng.choice([["idx", "R", "R", "R", "P", "P", "P", "P", "Tmin", "Tmax", "rate"],
-                              ["idx", "r", "r", "p", "p", "p", "tmin", "tmax", "rate"]])
+        fmtkeys = KROME_LAYOUTS[layout % len(KROME_LAYOUTS)] if layout is not None else rng.choice(KROME_LAYOUTS)
         lines.append("@format:" + ",".join(fmtkeys))
         lines.append("@common:user_crate")
         lines.append("@var:T32x = Tgas/3d2")
@@ -167,9 +176,7 @@ def gen_file(rng, fmt, n):
         if fmt == "krome" and rng.random() < 0.12:   # directives may come anywhere; the layout may change in mid-file
             kind = rng.choice(["format", "common", "var", "hnuclei"])
             if kind == "format":
-                fmtkeys = rng.choice([["idx", "R", "R", "R", "P", "P", "P", "P", "Tmin", "Tmax", "rate"],
-                                      ["idx", "r", "r", "p", "p", "p", "tmin", "tmax", "rate"],
-                                      ["Tmin", "Tmax", "idx", "R", "R", "P", "P", "P", "rate"]])
+                fmtkeys = rng.choice(KROME_LAYOUTS)
                 lines.append("@format:" + ",".join(fmtkeys))
             elif kind == "common":
                 lines.append(f"@common:user_x{i},user_y{i}")
@@ -225,6 +232,14 @@ def gen_file(rng, fmt, n):
             if r["tmax"] > 0 and rng.random() < 0.3:
                 r["krome_tmax_text"] = rng.choice(["+", "<+", ".LE."]) + f"{r['tmax']:g}"
             lines.append(enc_krome(r, idx, fmtkeys))
+            lk = [k.lower() for k in fmtkeys]
+            if "idx" not in lk:
+                e["idx"] = -1
+            if "tmin" not in lk:
+                r.pop("krome_tmin_text", None)
+                r["tmin"] = -1.0
+            if "tmax" not in lk:
+                r["tmax"] = -1.0
             e["type"] = 999
             e["tmin"] = r["tmin"] if r["tmin"] > 0 else {"-9999": -9999.0, "-9999.00": -9999.0, "-1d0": -1.0, ">-1d1": -10.0}.get(
                 r.get("krome_tmin_text"), -1.0)
@@ -257,7 +272,7 @@ def run_c07(argv):
     reqs, pend, kreqs, kpend = [], [], [], []
     for fmt in ["kida", "umist", "leeds", "krome", "uclchem", "naunet"]:
         for k in range(nfiles):
-            lines, exp = gen_file(rng, fmt, nlines)
+            lines, exp = gen_file(rng, fmt, nlines, layout=3 + k)      # every layout opens a file sooner or later
             f = chk.scratch / f"{fmt}{k}.txt"
             f.write_text("\n".join(lines) + "\n")
             show = {"format": fmt, "lines": lines[:6]}
